@@ -75,9 +75,18 @@ def main():
     ap.add_argument("filters", nargs="*")
     a = ap.parse_args()
     mutants = []
-    for d in sorted(glob.glob(os.path.join(HERE, "seeded", "C[0-9][0-9]-*"))):
+    import re
+    for d in sorted(glob.glob(os.path.join(HERE, "seeded", "[CF][0-9][0-9]-*"))):
         name = os.path.basename(d)
-        mutants.append((name, "diff", os.path.join(d, "patch.diff"), False, [name[:3]]))
+        if name.startswith("C"):
+            checks = [name[:3]]
+        else:   # per-file round: the properties the author says it breaks
+            try:
+                m = json.load(open(os.path.join(d, "meta.json")))
+            except Exception:  # noqa: BLE001
+                m = {}
+            checks = sorted(set(c for c in re.findall(r"C\d\d", json.dumps([m.get("property"), m.get("also_breaks")])) if c != "C20")) or ["C01"]
+        mutants.append((name, "diff", os.path.join(d, "patch.diff"), False, checks))
     for n, checks in REVERSED_FIXES.items():
         mutants.append(("rev_" + n, "diff", os.path.join(HERE, "fixes", n + ".diff"), True, checks))
     for n, (f, old, new, allocc, checks) in HAND.items():
